@@ -501,12 +501,18 @@ def case_jit(ctx, res, p):
     X = np.asarray(p["X"], float)
     opt, n_iter = p["optimizer"], int(p["n_iter"])
     out = {}
+    kind = p.get("est", "density")
     for jit in (False, True):
-        est = m.DensityEstimator(optimizer=opt, n_iter=n_iter, jit=jit)
+        if kind == "dim":
+            est = m.DimensionalityEstimator(gp_type="fixed", landmarks=X[:int(p["m"])], optimizer=opt, n_iter=n_iter, jit=jit)
+        else:
+            est = m.DensityEstimator(optimizer=opt, n_iter=n_iter, jit=jit)
         ld = np.asarray(est.fit_predict(X), float)
         out[jit] = (ld, np.asarray(est.losses, float), np.asarray(est.pre_transformation, float))
+    if kind == "dim":
+        opt = "dimensionality-" + opt
     res.count("jit:%s" % opt)
-    res.case(("jit", X.tobytes(), opt, n_iter), True, {"op": "jit", "optimizer": opt, "n_iter": n_iter, "X_shape": list(X.shape)})
+    res.case(("jit", kind, X.tobytes(), opt, n_iter), True, {"op": "jit", "est": kind, "optimizer": opt, "n_iter": n_iter, "X_shape": list(X.shape)})
     (l0, s0, z0), (l1, s1, z1) = out[False], out[True]
     dev = float(np.max(np.abs(l0 - l1)) / (1 + np.max(np.abs(l0))))
     res.dev("jit:%s max|dlogdens|/(1+max|logdens|)" % opt, dev)
@@ -576,6 +582,10 @@ def run(ctx, res):
     # the PRNG-driven optimiser across fresh interpreters (different hash salts), also in the quick tier
     run_case(ctx, res, {"op": "subproc", "X": X, "Xq": Xq, "optimizer": "advi", "n_iter": 7, "jit": False})
     run_case(ctx, res, {"op": "jit", "X": gen_X(rng, SHAPES[1]), "optimizer": "L-BFGS-B", "n_iter": 7})
+    # recorded finding (independent bug hunt): the long, ill-conditioned L-BFGS-B path of the dimensionality objective amplifies
+    # the rounding differences between compiled and interpreted evaluation to 2e-5 (relative) in the fitted values
+    run_case(ctx, res, {"op": "jit", "est": "dim", "m": 15, "X": np.random.default_rng(0).normal(size=(60, 3)),
+                        "optimizer": "L-BFGS-B", "n_iter": 7})
     # jit on/off for the iterative optimisers too (a traced closure may freeze per-iteration state such as the PRNG key)
     run_case(ctx, res, {"op": "jit", "X": gen_X(rng, SHAPES[1]), "optimizer": "advi", "n_iter": 7})
     run_case(ctx, res, {"op": "jit", "X": gen_X(rng, SHAPES[1]), "optimizer": "adam", "n_iter": 7})
